@@ -71,6 +71,9 @@ type WhereFrag struct {
 	// the guard: enclosing `if x != nil` / case clause
 	Case string
 	Err  string
+	// NonNil: the query fields (selector names) known to be non-nil at the call
+	// (enclosing if conditions, either polarity / operand order)
+	NonNil map[string]bool
 }
 
 func typeNameOf(info *types.Info, e ast.Expr) string {
@@ -328,6 +331,25 @@ func (m *SQLModel) collectWheres(p *core.Program) {
 							wf.Case = "if " + types.ExprString(x.Cond)
 						}
 						i = -1
+					}
+				}
+				wf.NonNil = map[string]bool{}
+				for _, g := range guardsOf(fd.Body, c) {
+					op, x, y, ok := cmpParts(info, g.Cond)
+					if !ok || !isNilExpr(info, y) {
+						continue
+					}
+					if !g.True {
+						op, _ = negTok(op)
+					}
+					if op != token.NEQ {
+						continue
+					}
+					switch v := x.(type) {
+					case *ast.SelectorExpr:
+						wf.NonNil[v.Sel.Name] = true
+					case *ast.Ident:
+						wf.NonNil[v.Name] = true
 					}
 				}
 				m.Wheres = append(m.Wheres, wf)
